@@ -8,8 +8,8 @@ for d in seeded/*/; do
   id=$(basename $d); prop=${id%%-*}
   [ -n "$1" ] && [ "$1" != "$prop" ] && [ "$1" != "$id" ] && continue
   extra=$(python3 -c "import json;print(' '.join(json.load(open('$d/meta.json')).get('also_check',[])))")
-  if ! git -C /repo apply --check $d/patch.diff 2>/dev/null; then echo "$id: patch no longer applies (skipped)"; continue; fi
-  git -C /repo apply $d/patch.diff
+  if ! git -C /repo apply --check /verif/$d/patch.diff 2>/dev/null; then echo "$id: patch no longer applies (skipped)"; continue; fi
+  git -C /repo apply /verif/$d/patch.diff
   hit=""
   for p in $prop $extra; do
     ./check $p quick > /tmp/seeded_$id_$p.out 2>&1
